@@ -122,11 +122,40 @@ def bypass_init(cls, **attrs):
 # =============================================================================================
 # rigid bodies
 # =============================================================================================
+def _real_rigid_grid(clsname, dim):
+    """real constructor of a derived rigid-body grid class on a concrete small body in its reference pose"""
+    import importlib
+    m = importlib.import_module(RB_MOD)
+    saved = m.np
+    m.np = np
+    try:
+        body = Body()
+        body.position_collection = np.zeros((3, 1))
+        body.velocity_collection = np.zeros((3, 1))
+        body.omega_collection = np.zeros((3, 1))
+        body.director_collection = np.eye(3).reshape(3, 3, 1).copy()
+        body.radius, body.length, body.breadth = 0.75, 1.5, 1.0
+        cls = getattr(m, clsname)
+        if clsname == "CircularCylinderForcingGrid":
+            return cls(grid_dim=2, rigid_body=body, num_forcing_points=5)
+        if clsname == "OpenEndCircularCylinderForcingGrid":
+            body.radius = 0.3  # 3 markers around the circumference for 2 along the length
+            return cls(grid_dim=3, rigid_body=body, num_forcing_points_along_length=2)
+        if clsname == "RectangularPlaneForcingGrid":
+            return cls(grid_dim=3, rigid_body=body, num_forcing_points_along_length=3)
+        return cls(grid_dim=3, rigid_body=body, num_forcing_points_along_equator=6)
+    finally:
+        m.np = saved
+
+
 @unit("rigid_body_forcing_grids", props=("C08", "C09"), kernels=False,
-      configs=[dict(kind=k) for k in ("cylinder_2d", "rigid_3d", "sphere")],
-      assumes=("M5: every rotation matrix is R(q)/|q|^2 for a quaternion q", "layouts bounded: 3 markers with symbolic body-frame offsets",
+      configs=[dict(kind=k) for k in ("cylinder_2d", "rigid_3d", "sphere")]
+      + [dict(kind="cylinder_2d", ctor="CircularCylinderForcingGrid"), dict(kind="rigid_3d", ctor="OpenEndCircularCylinderForcingGrid"),
+         dict(kind="rigid_3d", ctor="RectangularPlaneForcingGrid"), dict(kind="sphere", ctor="SphereForcingGrid")],
+      assumes=("M5: every rotation matrix is R(q)/|q|^2 for a quaternion q", "layouts bounded: 3 markers with symbolic body-frame offsets; with `ctor`: the marker layout the REAL constructor of the "
+               "derived class produces for one concrete small body (5-9 markers), pose and velocities symbolic",
                "PyElastica pose advance Q(delta) = (I - delta [Omega]_x) Q + O(delta^2), X(delta) = X + delta V (assumed)"))
-def rigid_body_forcing_grids(K, kind):
+def rigid_body_forcing_grids(K, kind, ctor=None):
     _NATIVE[0] = K.mode != "sym"
     N = 3
     dim = 2 if kind == "cylinder_2d" else 3
@@ -145,17 +174,39 @@ def rigid_body_forcing_grids(K, kind):
     if dim == 2:  # planar motion: spin about z only
         body.omega_collection[0, 0] = body.omega_collection[1, 0] = Om[0] * 0
         Om = [Om[0] * 0, Om[0] * 0, Om[2]]
-    clsname = {"cylinder_2d": "TwoDimensionalCylinderForcingGrid", "rigid_3d": "ThreeDimensionalRigidBodyForcingGrid",
-               "sphere": "SphereForcingGrid"}[kind]
+    clsname = ctor or {"cylinder_2d": "TwoDimensionalCylinderForcingGrid", "rigid_3d": "ThreeDimensionalRigidBodyForcingGrid",
+                       "sphere": "SphereForcingGrid"}[kind]
+
+    def as_values(a):
+        """the constructor's concrete layout as exact values of the current mode"""
+        out = empty_arr(K, a.shape)
+        for idx in np.ndindex(*a.shape):
+            out[idx] = num(K, float(a[idx]))
+        return out
+
     with object_array_modules(RB_MOD, *EL_MODS):
         cls = K.repo(f"{RB_MOD}:{clsname}")
-        attrs = dict(grid_dim=dim, num_lag_nodes=N, position_field=fresh(K, "stale_pos", (dim, N)),
-                     velocity_field=fresh(K, "stale_vel", (dim, N)),
-                     local_frame_relative_position_field=sym_array(K, "r_local", (dim, N)),
-                     global_frame_relative_position_field=(sym_array(K, "r_global", (dim, N)) if kind == "sphere"
-                                                           else fresh(K, "stale_rel", (dim, N))))
-        attrs["cylinder" if dim == 2 else "rigid_body"] = body
-        g = bypass_init(cls, **attrs)
+        if ctor:
+            # the REAL constructor lays the markers out; then the body it was built on is replaced by one in an
+            # arbitrary pose with arbitrary velocities, and everything the constructor cached becomes stale
+            g = _real_rigid_grid(ctor, dim)
+            N = g.num_lag_nodes
+            K.ensures("real_constructor_yields_a_small_layout", 3 <= N <= 12, props=("C08", "C09"))
+            attrs = dict(position_field=fresh(K, "stale_pos", (dim, N)), velocity_field=fresh(K, "stale_vel", (dim, N)),
+                         local_frame_relative_position_field=as_values(g.local_frame_relative_position_field),
+                         global_frame_relative_position_field=(as_values(g.global_frame_relative_position_field) if kind == "sphere"
+                                                               else fresh(K, "stale_rel", (dim, N))))
+            attrs["cylinder" if dim == 2 else "rigid_body"] = body
+            for k_, v_ in attrs.items():
+                setattr(g, k_, v_)
+        else:
+            attrs = dict(grid_dim=dim, num_lag_nodes=N, position_field=fresh(K, "stale_pos", (dim, N)),
+                         velocity_field=fresh(K, "stale_vel", (dim, N)),
+                         local_frame_relative_position_field=sym_array(K, "r_local", (dim, N)),
+                         global_frame_relative_position_field=(sym_array(K, "r_global", (dim, N)) if kind == "sphere"
+                                                               else fresh(K, "stale_rel", (dim, N))))
+            attrs["cylinder" if dim == 2 else "rigid_body"] = body
+            g = bypass_init(cls, **attrs)
         r_local = g.local_frame_relative_position_field.copy()
         g.compute_lag_grid_position_field()
         g.compute_lag_grid_velocity_field()
@@ -251,6 +302,32 @@ def rod_stub(K, E, planar):
     return rod, rots
 
 
+def _real_rod_grid(cls, E, dim):
+    """real __init__ of the nodal / element-centric / edge grid on a concrete straight rod (real numpy in its module)"""
+    import importlib
+    m = importlib.import_module(CR_MOD)
+    el = [importlib.import_module(x) for x in EL_MODS]
+    saved = [(mod, mod.np) for mod in [m] + el]
+    try:
+        for mod, _ in saved:
+            mod.np = np
+        rod = Body()
+        rod.n_elems = E
+        rod.position_collection = np.zeros((3, E + 1))
+        rod.position_collection[0] = np.arange(E + 1.0)  # along x: in the XY plane, as the 2-D grids require
+        rod.velocity_collection = np.zeros((3, E + 1))
+        rod.omega_collection = np.zeros((3, E))
+        rod.director_collection = np.repeat(np.array([[0.0, 1, 0], [0, 0, 1], [1, 0, 0]]).reshape(3, 3, 1), E, axis=2)
+        rod.mass = np.ones(E + 1)
+        rod.radius = 0.2 + 0.1 * np.arange(E)
+        rod.lengths = np.ones(E)
+        rod.tangents = np.repeat(np.array([[1.0], [0.0], [0.0]]), E, axis=1)
+        return cls(grid_dim=dim, cosserat_rod=rod)
+    finally:
+        for mod, v in saved:
+            mod.np = v
+
+
 def _real_surface_grid(cls, E):
     """real CosseratRodSurfaceForcingGrid.__init__ on a concrete rod (real numpy in its module)"""
     import importlib
@@ -287,12 +364,13 @@ def reduce_all(rots, expr):
       configs=[dict(kind="nodal", dim=d) for d in (2, 3)] + [dict(kind="element_centric", dim=d) for d in (2, 3)]
       + [dict(kind="edge", dim=2), dict(kind="surface", dim=3)]
       + [dict(kind=k, dim=d, E=E, _tier="thorough") for k, d in (("nodal", 3), ("element_centric", 3), ("edge", 2), ("nodal", 2))
-         for E in (1, 3, 4)],
+         for E in (1, 3, 4)]
+      + [dict(kind=k, dim=d, real_ctor=True) for k, d in (("nodal", 3), ("element_centric", 2), ("element_centric", 3), ("edge", 2))],
       assumes=("M5 quaternion parametrisation of director frames",
                "layouts bounded: 2 elements (thorough tier: also 1, 3 and 4 elements for the nodal, element-centric and edge grids); surface grid: one element with 3 surface markers (symbolic unit directions, "
                "symbolic cap ratios), one element with a single centre marker",
                "edge grid: rod in the XY plane (the class' own documented assumption)"))
-def cosserat_rod_forcing_grids(K, kind, dim, E=2):
+def cosserat_rod_forcing_grids(K, kind, dim, E=2, real_ctor=False):
     _NATIVE[0] = K.mode != "sym"
     planar = dim == 2
     rod, rots = rod_stub(K, E, planar)
@@ -359,6 +437,21 @@ def cosserat_rod_forcing_grids(K, kind, dim, E=2):
             ok_layout = (g.num_lag_nodes == N and list(g.start_idx) == [0, 3] and list(g.end_idx) == [3, 4])
             K.ensures("real_constructor_yields_the_representative_layout", ok_layout, props=("C08", "C09"))
             for k_, v_ in attrs.items():
+                setattr(g, k_, v_)
+        elif real_ctor:
+            # the REAL constructor on a concrete rod decides the layout (marker count, index windows, constant tables);
+            # then the rod is replaced by one in an arbitrary state and everything cached becomes stale
+            g = _real_rod_grid(cls, E, dim)
+            K.ensures("real_constructor_yields_the_documented_marker_count", g.num_lag_nodes == N, props=("C08", "C09"))
+            layout = ("grid_dim", "start_idx_elems", "end_idx_elems", "start_idx_left_edge_nodes", "end_idx_left_edge_nodes",
+                      "start_idx_right_edge_nodes", "end_idx_right_edge_nodes")
+            for k_, v_ in attrs.items():
+                if k_ in layout:
+                    continue  # keep what the constructor computed
+                if k_ == "z_vector":
+                    v_ = empty_arr(K, g.z_vector.shape)
+                    for idx in np.ndindex(*g.z_vector.shape):
+                        v_[idx] = num(K, float(g.z_vector[idx]))
                 setattr(g, k_, v_)
         else:
             g = bypass_init(cls, **attrs)
